@@ -91,6 +91,7 @@ static void case_reset(void)
   srv_cookie_built_hook                        = NULL;
   sim_read_hook                                = NULL;
   hl_config_hook                               = NULL;
+  sim_connect_hook                             = NULL;
   ck_epoch                                     = 0;
   app_srv_ever_mask                            = 0;
   mon_server_state_hook                        = NULL;
